@@ -25,7 +25,10 @@ healthily, the pool states apply to the page-2 fetch (for host= they are produce
 that disappears); the reference per fetch is the same plan walk (plan rebuilt per fetch; targeted: that host only).
 A sixth family executes a bound statement: one plan host answers UNPREPARED and loses its connection while the driver's
 own re-PREPARE is outstanding (state unprep_loss); it was attempted, so it must be listed when the rest of the plan is
-unusable, and a healthy later host must still be reached.  Oracle: the hosts that received
+unusable, and a healthy later host must still be reached.
+A seventh family has a host's answer judged RETRY (same host) while that host is unusable by the time the retry runs
+(connection lost with the answer, pool shut down while the request is outstanding, pool without connection while the
+error answer is on its way): the walk continues with the next plan host and the host stays listed.  Oracle: the hosts that received
 the request (node-side trace) are exactly those a reference walk over (plan, states) visits, in that order; no host
 twice without a RETRY decision; the outcome is the first healthy host's row, or NoHostAvailable whose ``errors`` has
 an entry with a reason of the right kind for every host of the plan and which is raised only after the plan iterator
@@ -58,6 +61,11 @@ CONTACT = '127.0.0.9'
 SPEC_STATES = ['missing', 'shut', 'noconn', 'ok']      # no 'busy' (its 2 s borrow wait would block the timer thread), no scripted errors
 SPEC_DELAY = 0.2
 REPREP_STATES = ['missing', 'shut', 'noconn', 'busy', 'sendfail', 'ok']
+# RETRY decided for this host's answer, yet the host is unusable when the retry runs:
+#   retry_loss    the answer IS the loss of the connection (reset / close): the pool is shut down, the host marked down
+#   retry_shut    the pool is shut down by the application/session while the request is outstanding (the request fails with it)
+#   retry_noconn  the pool loses its connection object while the (held) error answer is on its way
+RETRY_UNUSABLE = ['retry_loss', 'retry_shut', 'retry_noconn']
 
 
 def all_cases():
@@ -91,6 +99,8 @@ def all_cases():
         for pos in range(k):
             for rest in itertools.product(REPREP_STATES, repeat=k - 1):
                 cases.append(('reprep', rest[:pos] + ('unprep_loss',) + rest[pos:]))
+                for x in RETRY_UNUSABLE:
+                    cases.append(('retryfail', rest[:pos] + (x,) + rest[pos:]))
     return cases
 
 
@@ -111,6 +121,15 @@ def reference(order, states):
             # its error is recorded, the walk goes on
             arrivals.append(h)
             reasons[h] = 'connlost'
+            continue
+        if s in RETRY_UNUSABLE:
+            # the host's answer (a server error, or the loss of the connection) is judged RETRY, but by the time the retry runs the host
+            # cannot take the request any more: the walk goes on with the next host, the host stays recorded
+            arrivals.append(h)
+            decisions.append((RETRY, None))
+            if s == 'retry_noconn':
+                nerr += 1
+            reasons[h] = 'retry-unusable'
             continue
         if s == 'err_next':
             arrivals.append(h)
@@ -140,6 +159,9 @@ def reason_kind_ok(kind, exc, err=None):
         return isinstance(exc, NoConnectionsAvailable)
     if kind in ('sendfail', 'connlost'):
         return isinstance(exc, ConnectionShutdown)
+    if kind == 'retry-unusable':  # either what the host answered or why the retry could not be sent, whichever was recorded last
+        return isinstance(exc, (ConnectionException, NoConnectionsAvailable)) or hasattr(exc, 'summary_msg') or \
+            type(exc).__name__ in ('ReadTimeout', 'WriteTimeout', 'Unavailable')
     if kind == 'unusable':       # state after an earlier statement lost the connection: shut down or already removed
         return isinstance(exc, (ConnectionException, NoConnectionsAvailable))
     if kind == 'err':
@@ -258,7 +280,9 @@ def run_case(seed, mode, states):
             if s == 'unprep_loss':
                 prepare_loss['how'][a] = rng.choice(['reset', 'close'])
                 env.net.nodes[a].up = False          # its one connection stays; nothing renews the pool after the loss
-            if s in ('missing', 'ok', 'err_next', 'err_same', 'unprep_loss'):
+            if s in RETRY_UNUSABLE:
+                env.net.nodes[a].up = False          # nothing renews the pool afterwards
+            if s in ('missing', 'ok', 'err_next', 'err_same', 'unprep_loss') or s in RETRY_UNUSABLE:
                 continue
             pool = session._pools[hosts[a]]
             if s == 'shut':
@@ -322,10 +346,10 @@ def run_case(seed, mode, states):
             if deferred:
                 reasons = dict((h_, 'unusable' if k_ == 'missing' else k_) for h_, k_ in reasons.items())
             reached = states_ if outcome[0] == 'nohost' else states_[:list(order_).index(outcome[1])]
-            if 'sendfail' in reached or 'unprep_loss' in reached:
+            if any(s_ in ('sendfail', 'unprep_loss', 'retry_loss', 'retry_shut') for s_ in reached):
                 down_seen[0] = True
             for h_, s_ in zip(order_, reached):
-                if s_ in ('sendfail', 'unprep_loss'):
+                if s_ in ('sendfail', 'unprep_loss', 'retry_loss', 'retry_shut'):
                     spent.add(h_)
             errs = [errgen.make(rng.choice(C.SERVER_KINDS)) for _ in range(nerr)]
             # if the driver goes on after the decisions end, the extra arrivals are answered with errors and RETHROW
@@ -340,6 +364,13 @@ def run_case(seed, mode, states):
                     walk_acts += [next(it_)['action'], next(it_)['action']]
                 elif s_ == 'unprep_loss':
                     walk_acts.append('unprepared')
+                elif s_ == 'retry_loss':
+                    walk_acts.append(rng.choice(['reset', 'close']))
+                elif s_ == 'retry_shut':
+                    walk_acts.append('hold')
+                elif s_ == 'retry_noconn':
+                    a_ = next(it_)['action']
+                    walk_acts.append(('hold-error', a_[1], a_[2]))
                 elif s_ == 'ok':
                     break
             plan.set(uid, page1 + walk_acts + (['rows'] if outcome[0] == 'ok' else [e['action'] for e in extra]))
@@ -385,6 +416,22 @@ def run_case(seed, mode, states):
                     fut = rec.execute_async(session, uid, statement=stm, timeout=None, host=hosts[target])
             env.world.advance_to(env.world.now + 2.2 * (states_.count('busy') + 1) * 2 + 1.0)
             env.world.settle(advance=False)
+            # the request now waits on a host whose answer is held: make that host unusable, then let the answer (if any) through
+            for hld in list(env.net.held):
+                if hld.done or hld.req.get('query') != uid_query(uid):
+                    continue
+                a_ = hld.node.address
+                pool_ = session._pools.get(hosts[a_])
+                if st_of.get(a_) == 'retry_shut' and pool_ is not None:
+                    hld.drop()
+                    pool_.shutdown()             # closes the connection: the outstanding request fails with it
+                elif st_of.get(a_) == 'retry_noconn' and pool_ is not None:
+                    pool_._connection = None
+                    hld.release()
+                else:
+                    continue
+                env.world.advance_to(env.world.now + 2.2 * (states_.count('busy') + 1) * 2 + 1.0)
+                env.world.settle(advance=False)
             lbp.order = None
             with env.world.inspect():
                 seen = [s_[0] for s_ in plan.seen[m_seen:] if s_[3] == uid]
@@ -445,6 +492,8 @@ def run_case(seed, mode, states):
                                     elif s_ == 'err_same':
                                         next(it)
                                         errs_by_host[h_] = next(it)
+                                    elif s_ == 'retry_noconn':
+                                        next(it)
                                 for h_, kind in reasons.items():
                                     if kind == 'shut' and down_seen[0]:
                                         kind = 'shut-or-removed'
@@ -680,6 +729,8 @@ def run_case(seed, mode, states):
         elif mode == 'reprep':
             v = one_statement('main', None, order, list(states))
             prepare_loss['armed'] = False
+        elif mode == 'retryfail':
+            v = one_statement('main', None, order, list(states))
         elif mode == 'paged':
             v = one_statement('main', None, order, list(states), paged=True)
         elif mode == 'pagedhost':
@@ -752,8 +803,9 @@ def run(ctx):
         for _ in range(4000):
             key = r.choices([('plan', 0), ('plan', 1), ('plan', 2), ('plan', 3), ('plan', 4), ('host', 1), ('spec', 2), ('spec', 3), ('spec', 4),
                              ('specbusy', 1), ('specbusy', 2), ('specbusy', 3), ('specbusy', 4),
-                             ('paged', 1), ('paged', 2), ('paged', 3), ('pagedhost', 1), ('reprep', 1), ('reprep', 2), ('reprep', 3)],
-                            [1, 8, 20, 30, 40, 12, 4, 8, 10, 1, 8, 10, 8, 4, 8, 10, 12, 2, 8, 14])[0]
+                             ('paged', 1), ('paged', 2), ('paged', 3), ('pagedhost', 1), ('reprep', 1), ('reprep', 2), ('reprep', 3),
+                             ('retryfail', 1), ('retryfail', 2), ('retryfail', 3)],
+                            [1, 8, 20, 30, 40, 12, 4, 8, 10, 1, 8, 10, 8, 4, 8, 10, 12, 2, 8, 14, 3, 10, 16])[0]
             todo.append((r.randrange(1 << 30), r.choice(by_len[key])))
     else:
         w, nw = (ctx.worker or 0), max(1, ctx.nworkers)
@@ -802,6 +854,8 @@ def run(ctx):
             ctx.count("errors_answered_by_nodes", q.get('errors_answered', 0))
             if 'unprep_loss' in q['states']:
                 ctx.count("statements_losing_the_connection_during_reprepare")
+            if any(s_ in RETRY_UNUSABLE for s_ in q['states']):
+                ctx.count("statements_with_same_host_retry_on_host_turned_unusable")
             if q['mode'].startswith('paged'):
                 ctx.count("second_page_fetches_judged")
             if q['mode'].endswith('host'):
@@ -830,4 +884,5 @@ def run(ctx):
                           "explicit_host_statements": 60, "state_busy": 30, "state_sendfail": 30, "state_missing": 30, "state_shut": 30,
                           "state_noconn": 30, "state_err_next": 30, "state_err_same": 30, "speculative_statements": 25,
                           "speculative_timer_while_caller_in_send_request_statements": 25,
-                          "second_page_fetches_judged": 40, "statements_losing_the_connection_during_reprepare": 30}
+                          "second_page_fetches_judged": 40, "statements_losing_the_connection_during_reprepare": 30,
+                          "statements_with_same_host_retry_on_host_turned_unusable": 40}
